@@ -7,7 +7,7 @@ WT=/tmp/wt/scratch
 [ -d $WT ] || git -C /repo worktree add -q --detach $WT HEAD
 PROPS=$(python3 -c "import json;print(' '.join(c['property_id'] for c in json.load(open('/verif/MANIFEST.json'))['checks']))")
 DIRS=${@:-$(ls -d /verif/refactors/*/r* 2>/dev/null)}
-for d in $DIRS; do
+for d in $DIRS; do d=$(realpath $d)
   git -C $WT checkout -q --detach $(git -C /repo rev-parse HEAD); git -C $WT checkout -q -- .; git -C $WT clean -fdq
   if ! git -C $WT apply $d/patch.diff 2>/dev/null; then echo "$d: PATCH-DOES-NOT-APPLY"; continue; fi
   alarms=""
